@@ -23,12 +23,15 @@ BOUNDS = {
 }
 
 LONGLIST = '[' + ', '.join(str(i) for i in range(40)) + ']'
+LONGCHAIN = '1' + ' + 1' * 400
 SOURCES = ['1', ' 1', '1 ', '\n1', '1\n', '\f1', '1\f', '[1, 2]', '{"a": [1]}', '{"a": {"b": 1}}', 'x = [1]; x', 'f = v => [v]; f(1)',
            '1 +', 'u', 'map(l, v => v + k)', '[[1], {"c": [2]}]', 'x = {"a": {"b": [1]}}; x["a"]', 'l', 'push(l, 3); l',
            'r = []; push(r, [0]); r', 'k if k else [k]',
            'k\n-1', 'k -1', 'len(l)\n[2]', 'len(l) [2]', 'k == "a  b"', 'k == "a b"', '\n\nx = = 1', 'x = = 1', 'x = 1\nk', 'x = 1 k', ' [1,\n 2] ', '[1, 2]\n', 'len([1, 2 3', 'x = 10\ny = 2\nx * y', 'k(', '{"a": [1,\n2 3]}', 'fa(10)',
            '[]', '{}', 'k if False else []', 'acc = x => []; push(acc(0), 7); acc(0)', '"a  b" | len', '"a b" | len', '%l% | len', 'len("\t\t")', 'len("\t")',
-           '[[], {}]', LONGLIST, 'pop(' + LONGLIST + ')', '{"t": [' + LONGLIST + ']}']
+           '[[], {}]', LONGLIST, 'pop(' + LONGLIST + ')', '{"t": [' + LONGLIST + ']}',
+           # texts a cache may key / copy / hash differently than the parser reads them: lone surrogates, a tree 400 levels deep
+           '"\ud83d" + "x"', 'len("\udc00") # \udfff', LONGCHAIN]
 WARM = ['1', '{"a": {"b": 1}}', 'map(l, v => v + k)', 'f = v => [v]; f(1)', '[[1], {"c": [2]}]']
 
 
@@ -271,14 +274,14 @@ def _src(act):
     return repr(act[1])[:22] if len(act) > 1 else ''
 
 
-DEEP_SOURCES = {LONGLIST, 'pop(' + LONGLIST + ')', '[]', '{}', 'k if False else []', '"a  b" | len', '"a b" | len', '[[], {}]', 'len([1, 2 3', 'x = 10\ny = 2\nx * y', 'k\n-1', 'k -1', '\n\nx = = 1', 'x = = 1', '1 +', ' 1', '{"a": {"b": 1}}', 'map(l, v => v + k)', 'f = v => [v]; f(1)', '[[1], {"c": [2]}]', '1', '\f1', 'x = {"a": {"b": [1]}}; x["a"]'}
+DEEP_SOURCES = {'"\ud83d" + "x"', LONGCHAIN, LONGLIST, 'pop(' + LONGLIST + ')', '[]', '{}', 'k if False else []', '"a  b" | len', '"a b" | len', '[[], {}]', 'len([1, 2 3', 'x = 10\ny = 2\nx * y', 'k\n-1', 'k -1', '\n\nx = = 1', 'x = = 1', '1 +', ' 1', '{"a": {"b": 1}}', 'map(l, v => v + k)', 'f = v => [v]; f(1)', '[[1], {"c": [2]}]', '1', '\f1', 'x = {"a": {"b": [1]}}; x["a"]'}
 
 
 def deep_actions():
     return [a for a in actions() if a[0] in ('mutate-last', 'set-k', 'eval-ast') or (a[0] == 'eval' and a[1] in DEEP_SOURCES and a[3] in (None, 9))]
 
 
-CORE_SOURCES = {LONGLIST, 'pop(' + LONGLIST + ')', '[]', '{}', 'k if False else []', '"a  b" | len', '"a b" | len', '{"a": {"b": 1}}', 'map(l, v => v + k)', 'len([1, 2 3', 'x = 10\ny = 2\nx * y', '\f1', '1', 'k\n-1', 'k -1'}
+CORE_SOURCES = {'"\ud83d" + "x"', LONGLIST, 'pop(' + LONGLIST + ')', '[]', '{}', 'k if False else []', '"a  b" | len', '"a b" | len', '{"a": {"b": 1}}', 'map(l, v => v + k)', 'len([1, 2 3', 'x = 10\ny = 2\nx * y', '\f1', '1', 'k\n-1', 'k -1'}
 
 
 def core_actions():
